@@ -42,7 +42,7 @@ def frame(cols, rows):
     return pandas.DataFrame({c: [r[i] for r in rows] for i, c in enumerate(cols)}, columns=cols)
 
 
-def run_both(b, ops, frames, want, case, helper, sq, ordered=False):
+def run_both(b, ops, frames, want, case, helper, sq, ordered=False, post=None):
     """compare Pandas and SQLite results of ops with the reference frame; returns set of backends that agreed"""
     ok = set()
     for be in ("pandas", "sqlite"):
@@ -52,6 +52,8 @@ def run_both(b, ops, frames, want, case, helper, sq, ordered=False):
             b.violation("helper-raised", f"{helper} on {be}: {exc_str(ex)[:400]}", case=dict(case, backend=be))
             continue
         b.count("comparisons", helper + ":" + be)
+        if post is not None:
+            got = post(got)
         m = frames_match(want, got)
         if m:
             b.violation("helper-result-wrong", f"{helper} on {be}: {m}\ncase: {json.dumps(case)[:900]}", case=dict(case, backend=be))
@@ -63,10 +65,15 @@ def run_both(b, ops, frames, want, case, helper, sq, ordered=False):
 # ------------------------------------------------------------------ rank_to_average
 def case_rank(rng):
     n = rng.choice([0, 1, 2, 4, 6, 10])
-    rows = [[rng.choice(["a", "b"]), rng.choice([0, 1]), rng.choice([1, 2, 3]), rng.choice([0.5, 1.5]), i] for i in range(n)]
+    # a missing partition key is a partition of its own (as a null group key is a group)
+    pnull = rng.choice([0, 0, 0.3])
+    # a passenger column, sometimes named like the helper's own scratch / default result columns
+    extra = rng.choice(["uid", "uid", "rank_tie_breaker", "rank"])
+    rows = [[(None if rng.random() < pnull else rng.choice(["a", "b"])), rng.choice([0, 1]), rng.choice([1, 2, 3]), rng.choice([0.5, 1.5]), i]
+            for i in range(n)]
     part = rng.sample(["p1", "p2"], rng.choice([0, 1, 2]))
     order = rng.sample(["o1", "o2"], rng.choice([1, 1, 2]))
-    return {"helper": "rank_to_average", "cols": ["p1", "p2", "o1", "o2", "uid"], "rows": rows, "partition": part, "order": order}
+    return {"helper": "rank_to_average", "cols": ["p1", "p2", "o1", "o2", extra], "rows": rows, "partition": part, "order": order}
 
 
 def judge_rank(b, case, sq):
@@ -93,9 +100,19 @@ def judge_rank(b, case, sq):
             want_rows.append(list(r) + [rank_of[tuple(r[ci[o]] for o in case["order"])]])
     want = frame(cols + ["rk"], want_rows)
     d = TableDescription(table_name="d", column_names=cols)
-    ops = sol.rank_to_average(d, order_by=case["order"], partition_by=case["partition"] or None, rank_column_name="rk")
+    try:
+        ops = sol.rank_to_average(d, order_by=case["order"], partition_by=case["partition"] or None, rank_column_name="rk")
+    except AssertionError:
+        if cols[-1] == "rank_tie_breaker":
+            # an input column named like the helper's scratch column is refused when the pipeline is built: an explicit
+            # refusal, not a wrong result (the alternative, accepting it, must then keep the column: judged below)
+            b.count("rank_scratch_name_refused_at_build")
+            return {"pandas", "sqlite"}, ("scratch-name-refused",)
+        raise
     ok = run_both(b, ops, {"d": frame(cols, rows)}, want, case, "rank_to_average", sq)
-    return ok, ("ties" if ties else "no-ties", f"p{len(case['partition'])}", f"o{len(case['order'])}")
+    null_part = any(r[ci[p]] is None for r in rows for p in case["partition"])
+    return ok, ("ties" if ties else "no-ties", f"p{len(case['partition'])}", f"o{len(case['order'])}",
+                "null-partition-key" if null_part else "-", cols[-1])
 
 
 # ------------------------------------------------------------------ last_observed_carried_forward
@@ -115,6 +132,10 @@ def case_locf(rng):
         else:
             v = float(i)
         rows.append([rng.choice(["a", "b", "c"]), i, v, (None if rng.random() < 0.4 else rng.choice([10.0, 20.0]))])
+    if rng.random() < 0.2:
+        for r in rows:
+            if rng.random() < 0.3:
+                r[0] = None   # a missing partition key: a partition of its own
     rng.shuffle(rows)
     return {"helper": "locf", "cols": ["p", "t", "v", "other"], "rows": rows, "partition": rng.choice([[], ["p"]]), "pattern": pattern}
 
@@ -140,12 +161,21 @@ def judge_locf(b, case, sq):
                     filled = True
                 v = cur
             want_rows.append([r[0], r[1], v, r[3]])
+    # Rows whose partition key is missing: the helper numbers them as a partition of their own (window semantics) but
+    # fetches the carried value with an equi-join, which never matches a missing key, so they stay unfilled on both
+    # engines.  Whether a missing partition key is a "valid input" of this helper is not settled by its documentation:
+    # such rows are generated (they must not disturb the other partitions) but their own values are not judged.
+    post = None
+    if case["partition"] and any(r[0] is None for r in rows):
+        want_rows = [r for r in want_rows if r[0] is not None]
+        post = lambda df: df[df["p"].notna()].reset_index(drop=True)  # noqa: E731
+        b.count("locf_null_partition_rows_not_judged")
     want = frame(cols, want_rows)
     d = TableDescription(table_name="d", column_names=cols)
     ops = sol.last_observed_carried_forward(d, order_by=["t"], partition_by=case["partition"] or None, value_column_name="v")
     # the helper may keep helper columns out: compare on the documented columns only
     ops = ops.select_columns(cols)
-    ok = run_both(b, ops, {"d": frame(cols, rows)}, want, case, "last_observed_carried_forward", sq)
+    ok = run_both(b, ops, {"d": frame(cols, rows)}, want, case, "last_observed_carried_forward", sq, post=post)
     return ok, (case["pattern"], "filled" if filled else "nothing-to-fill", f"p{len(case['partition'])}")
 
 
@@ -177,7 +207,8 @@ def judge_replicate(b, case, sq):
 # ------------------------------------------------------------------ def_multi_column_map
 def case_multi_map(rng):
     ncols = rng.choice([1, 2, 3])
-    mapcols = ["c%d" % i for i in range(ncols)]
+    # column names in no particular (in particular: not alphabetical) order
+    mapcols = rng.sample(["size", "color", "c0", "Zed", "b1"], ncols)
     n = rng.choice([0, 1, 3, 5])
     vals = ["u", "v", "w", "zz"]
     rows = [[i] + [(None if rng.random() < 0.15 else rng.choice(vals)) for _ in mapcols] + [rng.choice([1.0, 2.0])] for i in range(n)]
